@@ -457,3 +457,305 @@ def judge_race(ctx, r, flavor):
         ctx.violation("C18:%s:data-after-close-frame:%s" % (side, origin),
                       "%d data frame(s) on the wire behind the %s's close frame (frame %d of %d); first late payload %r; close initiated by: %s"
                       % (len(late), side, at, len(frames), late[0].payload[:24], origin), dict(det, close_index=at, late=len(late)))
+
+
+# ------------------------------------------------------------------------------------------------
+
+def _interleave(*lists):
+    out = []
+    for l in lists:
+        out.extend(l)
+    return out
+
+
+def plan(ctx, bins, corp):
+    thorough = ctx.tier == "thorough"
+    shards = []
+    hostile_extra = ["--wait-ms", 1500, "--short-wait-ms", 300]
+    for fl in bins:
+        scale = {"plain": 1.0, "asan": 0.34 if not thorough else 0.3, "tsan": 0.1}[fl]
+        slow = 1 if fl == "plain" else 3
+        valid_extra = ["--wait-ms", 6000 * slow, "--short-wait-ms", 1000]
+        sv = corp["sv"][: max(40, int(len(corp["sv"]) * scale))] + [s for s in corp["sv"][int(len(corp["sv"]) * scale):] if "directed" in s.features]
+        sm = corp["sm"][: max(30, int(len(corp["sm"]) * scale))]
+        cv = corp["cv"][: max(30, int(len(corp["cv"]) * scale))] + [s for s in corp["cv"][int(len(corp["cv"]) * scale):] if "directed" in s.features][:8]
+        cm = corp["cm"][: max(15, int(len(corp["cm"]) * scale))]
+        # server, in process: exact segmentations (all single cuts for small streams)
+        shards += split_shards(fl, "server-inproc", sv, "sv", 10 if fl == "plain" else 6, valid_extra)
+        shards += split_shards(fl, "server-inproc", corp["sh"] + sm, "shm", 4, ["--wait-ms", 4000 * slow, "--short-wait-ms", 1000])
+        # server over loopback
+        rng = random.Random(ctx.seed * 77 + len(fl))
+        nsock = max(24, int((600 if thorough else 60) * scale))
+        sock = [g.copy_for(s, g.seg_socket, rng, False) for s in sv[:nsock]]
+        shards += split_shards(fl, "server-socket", sock, "ssv", 4 if fl == "plain" else 2, valid_extra)
+        seen, sockh = set(), []
+        for s in corp["sh"]:
+            if thorough and fl == "plain" or s.hclass not in seen:
+                seen.add(s.hclass)
+                s2 = g.copy_for(s, lambda x: x)
+                s2.segspec = "W;R:1"
+                sockh.append(s2)
+        shards += split_shards(fl, "server-socket", sockh, "ssh", 4 if fl == "plain" else 2, hostile_extra, timeout=600)
+        # client over loopback
+        shards += split_shards(fl, "client-socket", cv, "cv", 8 if fl == "plain" else 4, valid_extra)
+        shards += split_shards(fl, "client-socket", corp["ch"] + cm, "chm", 8 if fl == "plain" else 4, hostile_extra, timeout=600)
+    return shards
+
+
+def _needs_retry(mode, rec, vs):
+    if not vs:
+        return False
+    if any(k == "__harness__" for k, w, d in vs):
+        return True
+    if mode == "client-socket":
+        return any(not s["obs"]["synced"] for s in rec["segs"])
+    if mode == "server-socket":
+        return rec["lost"] > 0 or rec.get("dead")
+    return rec["lost"] > 0
+
+
+def run(ctx):
+    thorough = ctx.tier == "thorough"
+    flavors = ["plain", "asan"] + (["tsan"] if thorough else [])
+    race_flavors = ["plain", "tsan"]
+    bins = vf.build_many([("c18_ws", f) for f in sorted(set(flavors + race_flavors))])
+    B = {f: bins[("c18_ws", f)] for f in set(flavors + race_flavors)}
+    corp = corpora(ctx.seed, ctx.tier)
+    by_id = {}
+    for k in ("sv", "sh", "sm", "cv", "ch", "cm"):
+        for s in corp[k]:
+            by_id[s.id] = s
+
+    # ---- frame level
+    fcases = os.path.join(ctx.tmp, "frames.cases")
+    write_frame_cases(fcases, corp)
+    frame_jobs = []
+    n_rand = {"plain": 20000000 if thorough else 200000, "asan": 2000000 if thorough else 40000, "tsan": 0}
+    for fl in flavors:
+        if not n_rand[fl]:
+            continue
+        nsh = 16 if fl == "plain" else 8
+        per = n_rand[fl] // nsh
+        for i in range(nsh):
+            frame_jobs.append(("rand", fl, lambda fl=fl, i=i, per=per: vf.run_harness(
+                B[fl], ["--mode", "frame", "--seed", ctx.seed, "--from", i * per, "--count", per, "--out", os.path.join(ctx.tmp, "fr-%s-%d.jsonl" % (fl, i))],
+                timeout=1800, out_file=os.path.join(ctx.tmp, "fr-%s-%d.jsonl" % (fl, i)))))
+        frame_jobs.append(("cases", fl, lambda fl=fl: vf.run_harness(
+            B[fl], ["--mode", "frame", "--seed", ctx.seed, "--cases", fcases, "--out", os.path.join(ctx.tmp, "fc-%s.jsonl" % fl)],
+            timeout=1800, out_file=os.path.join(ctx.tmp, "fc-%s.jsonl" % fl))))
+
+    # ---- endpoint level
+    shards = plan(ctx, {f: B[f] for f in flavors}, corp)
+
+    # ---- close races
+    n_race = {"plain": 4000 if thorough else 200, "tsan": 600 if thorough else 60}
+    race_jobs = []
+    for fl in race_flavors:
+        nsh = 8 if fl == "plain" else 4
+        per = n_race[fl] // nsh
+        for i in range(nsh):
+            race_jobs.append((fl, lambda fl=fl, i=i, per=per: vf.run_resumable(
+                ctx, B[fl], ["--mode", "closerace", "--seed", ctx.seed], i * per, per, timeout=900, tag="race%d" % i,
+                crash_key=lambda rr, k: ("C18:closerace:%s:process-crash" % RACE_KINDS[k % 5], "close-race harness process died (rc=%s) in scenario %d (%s): %r" % (rr.rc, k, RACE_KINDS[k % 5], rr.err[-300:])))))
+
+    jobs = [lambda j=j: ("frame", j[0], j[1], j[2]()) for j in frame_jobs]
+    jobs += [lambda sh=sh: ("shard", None, sh.flavor, run_shard(ctx, B[sh.flavor], sh)) for sh in shards]
+    jobs += [lambda j=j: ("race", None, j[0], j[1]()) for j in race_jobs]
+    # long jobs first
+    results = vf.run_many(ctx, jobs[len(frame_jobs):] + jobs[:len(frame_jobs)])
+
+    judge = Judge(ctx)
+    done_shards = []
+    for kind, sub, fl, res in results:
+        if kind == "frame":
+            ctx.ingest(res, where="(frame, %s)" % fl)
+            if res.timed_out or res.rc not in (0,):
+                if not res.san_reports:
+                    ctx.inconcl("frame mode (%s, %s): rc=%s timed_out=%s %s" % (sub, fl, res.rc, res.timed_out, res.err[-300:]))
+            if sub == "cases":
+                judge_frames(ctx, res, corp, fl)
+        elif kind == "race":
+            for rr in res:
+                ctx.ingest(rr, where="(closerace, %s)" % fl)
+                if getattr(rr, "bad", None):
+                    ctx.inconcl(rr.bad)
+                for r in rr.records:
+                    if r.get("t") == "race":
+                        judge_race(ctx, r, fl)
+        else:
+            done_shards.append(res)
+
+    # ---- judge endpoint cases; watchdog-dependent verdicts are re-run once in isolation
+    retry = []
+    verdicts = []      # (sh, st, rec, vs)
+    for sh in done_shards:
+        for rr in sh.rrs:
+            ctx.ingest(rr, where="(%s, %s)" % (sh.mode, sh.flavor))
+        for ev in sh.events:
+            if ev["kind"] == "harness":
+                ctx.inconcl("%s %s: harness process ended abnormally: %s" % (sh.mode, sh.flavor, ev["detail"]))
+            else:
+                st = next(s for s in sh.streams if s.id == ev["id"])
+                retry.append((sh, st, ev, None))
+        for st in sh.streams:
+            rec = sh.records.get(st.id)
+            if rec is None:
+                if not any(ev["id"] == st.id for ev in sh.events):
+                    ctx.inconcl("%s %s: no result for case %s" % (sh.mode, sh.flavor, st.id))
+                continue
+            vs = judge.case(st, rec, sh.mode, sh.flavor)
+            if _needs_retry(sh.mode, rec, vs):
+                retry.append((sh, st, None, vs))
+            else:
+                verdicts.append((sh, st, rec, vs))
+
+    def isolated(sh, st):
+        iso = Shard(sh.flavor, sh.mode, [st], "iso-%s-%s-%s" % (sh.mode, sh.flavor, st.id), ["--wait-ms", 8000, "--short-wait-ms", 2500], 600)
+        return run_shard(ctx, B[sh.flavor], iso)
+
+    isos = vf.run_many(ctx, [lambda a=a, b=b: isolated(a, b) for a, b, ev, vs in retry], workers=max(2, vf.NCPU // 2))
+    for (sh, st, ev, vs), iso in zip(retry, isos):
+        ctx.obs("watchdog_dependent_cases_rerun_in_isolation")
+        side = "server" if st.side == "s" else "client"
+        cls = st.hclass or {"v": "valid-stream", "u": "valid-stream", "t": "valid-stream"}.get(st.kind, st.kind)
+        rec2 = iso.records.get(st.id)
+        if ev is not None:
+            again = [e for e in iso.events if e["kind"] == ev["kind"]]
+            if again:
+                what = ("the process died while handling the stream (rc=%s): %s" % (again[0]["detail"].get("rc"), again[0]["detail"].get("stderr", "")[-300:])
+                        if ev["kind"] == "crash" else "the process watchdog fired twice on this case")
+                ctx.violation("C18:%s:%s:%s" % (side, cls, "process-crash" if ev["kind"] == "crash" else "call-never-returns"), "%s: %s" % (sh.mode, what),
+                              dict(stream=st.id, mode=sh.mode, flavor=sh.flavor, seed=ctx.seed, tier=ctx.tier, note=st.note, first=ev["detail"], again=again[0]["detail"]))
+                continue
+            ctx.obs("crash_or_watchdog_events_not_reproduced")
+            if rec2 is None:
+                ctx.inconcl("%s %s case %s: %s once, no result in isolation either" % (sh.mode, sh.flavor, st.id, ev["kind"]))
+                continue
+            verdicts.append((sh, st, rec2, judge.case(st, rec2, sh.mode, sh.flavor)))
+            continue
+        if rec2 is None:
+            ctx.inconcl("%s %s case %s: no result when re-run in isolation (%s)" % (sh.mode, sh.flavor, st.id, [e["kind"] for e in iso.events]))
+            continue
+        vs2 = judge.case(st, rec2, sh.mode, sh.flavor)
+        keys1 = set(k for k, w, d in vs)
+        keep = [(k, w, dict(d, reproduced_in_isolation=True)) for k, w, d in vs2 if k in keys1 and k != "__harness__"]
+        if any(k == "__harness__" for k, w, d in vs2):
+            ctx.inconcl("%s %s case %s: %s" % (sh.mode, sh.flavor, st.id, [w for k, w, d in vs2 if k == "__harness__"][0]))
+        if keys1 - set(k for k, w, d in vs2) - {"__harness__"}:
+            ctx.obs("watchdog_dependent_verdicts_not_reproduced", len(keys1 - set(k for k, w, d in vs2) - {"__harness__"}))
+        verdicts.append((sh, st, rec2, keep))
+
+    nsample = 0
+    for sh, st, rec, vs in verdicts:
+        smp = None
+        if nsample < 5 and ((nsample % 2 == 0) == (st.kind != "h")):
+            smp = dict(st.sample(), mode=sh.mode, flavor=sh.flavor, observed=dict(nseg=rec["nseg"], ndiff=rec.get("ndiff"), lost=rec["lost"]))
+            nsample += 1
+        ctx.case(sig="%s|%s" % (sh.mode, st.sig()), sample=smp, n=rec["nseg"])
+        ctx.obs("%s:segmentations_judged" % sh.mode, rec["nseg"])
+        ctx.obs("%s:%s_cases_judged" % (sh.mode, {"v": "valid", "u": "invalid_utf8", "t": "trailing_after_close", "h": "hostile", "m": "mutated"}[st.kind]))
+        if "A" in st.segspec.split(";") and sh.mode == "server-inproc":
+            ctx.obs("streams_with_every_single_cut_point")
+        if rec.get("capped"):
+            ctx.obs("cases_with_segmentation_sweep_cut_short")
+        for f in ("ping-in-frag", "pong-in-frag", "utf8-seq-split-across-fragments", "close-inside-fragmented-message", "empty-fragment"):
+            if f in st.features:
+                ctx.obs("streams_with_" + f.replace("-", "_"))
+        for f in st.features:
+            if isinstance(f, str) and f.startswith("len=") and st.kind != "h":
+                ctx.obs("frames_len_" + f[4:].replace(">=", "ge").replace("<", "lt").replace("=", ""))
+        if st.expect is not None and st.expect.pongs and st.kind != "h":
+            ctx.obs("pings_expected_to_be_answered", len(st.expect.pongs))
+        for key, what, det in vs:
+            if key == "__harness__":
+                ctx.inconcl("%s %s case %s: %s" % (sh.mode, sh.flavor, st.id, what))
+            else:
+                ctx.violation(key, what, det)
+
+    ctx.rule = ("frame level: seeded random frames (6 opcodes x FIN x masked/unmasked x payload 0..70000 incl. 125/126/127/65535/65536) serialized, parsed back, "
+                "every truncation parsed; reference-codec cross check of serialize()/parse() bytes; hostile header dictionary (2^64-1, 2^64-k, >=2^63, control "
+                "frames with 126/127 length codes or FIN=0, RSV, reserved opcodes, non-minimal lengths, random headers). endpoint level: stream = generated "
+                "message list (text/binary, 1-6 fragments incl. empty ones, pings/pongs between fragments and messages, masked/unmasked/mixed, close with/without "
+                "code/reason at any position, non-UTF-8 text, data behind the close) or hostile dictionary entry or mutated valid stream; judged per mode "
+                "(server-inproc: primed session fed through onUpgradedData; server-socket; client-socket) and per segmentation (whole, every single cut or "
+                "structural cuts, seeded multi-cuts, fixed blocks, recv capped at n bytes, seeded random short reads, paced cuts, 101 joined with the stream). "
+                "close races: 2-4 threads sendText/sendBinary while peer / sendClose / disconnect initiates the close. "
+                "distinct = hash of (mode, side, kind, hostile class, feature set: message type x size bucket, fragment count, frame length buckets, control "
+                "frames in/between fragments, mask mode, close form)")
+    ctx.assumptions = [
+        "the generator's frame list run through the reference receiver model (lib/c18_wsgen.py) is the ground truth; sha1 of payloads stands for equality",
+        "frames are only sent after the 101 has been read (server) / after connect() returned (client), except the client 'J' segmentation where the 101 and the stream share one send",
+        "in-process server mode: the harness thread stands where the engine's I/O thread stands; a harness-originated sendClose(4999,'vfmark') flushes the capture and is stripped before judging",
+        "socket modes: segment boundaries are forced by capping / shortening the endpoint's recv calls (kernel-legal short reads) or paced, not byte-exact; exact cuts are the in-process mode",
+        "over-allocation bound: single allocation <= 2 x max(configured maximum, bytes received) + 1 MiB (factor 2 = geometric growth of std::vector)",
+        "buffering bound (server, maximum configured to 4096, input delivered in 4096-byte reads): live heap growth <= 4 x maximum + 128 KiB while 512 KiB arrive",
+        "WebSocketClient has no configurable maximum: declared lengths that are merely huge are only judged there for exceptions and over-allocation",
+        "messages after the first non-UTF-8 text message of a stream, and what follows hostile bytes, are not judged (the endpoint may fail the connection there)",
+        "a verdict that depends on a wall-clock wait (lost sync) is only reported when the same key is reproduced by an isolated re-run with longer waits",
+        "RSV bits / extensions: only robustness is judged",
+    ]
+    ctx.require_obs("frame:roundtrips", "frame:truncations_checked", "frame:len_form_7bit", "frame:len_form_16bit", "frame:len_form_64bit",
+                    "frame:reference_serialize_checks_judged", "frame:reference_parse_checks_judged", "frame:hostile_headers_judged",
+                    "server-inproc:segmentations_judged", "server-socket:segmentations_judged", "client-socket:segmentations_judged",
+                    "server-inproc:valid_cases_judged", "server-inproc:hostile_cases_judged", "server-inproc:mutated_cases_judged",
+                    "client-socket:valid_cases_judged", "client-socket:hostile_cases_judged", "streams_with_every_single_cut_point",
+                    "streams_with_ping_in_frag", "streams_with_utf8_seq_split_across_fragments", "pings_expected_to_be_answered",
+                    "client-socket:recv_calls_shortened_by_shim", "client-socket:stream_joined_with_101",
+                    *["race:%s:scenarios_with_sends_attempted_after_the_close_was_initiated" % k for k in RACE_KINDS],
+                    "race:server:peer-close:close_frame_seen", "race:server:app-sendClose:close_frame_seen", "race:client:peer-close:close_frame_seen")
+    ctx.extra["corpora"] = {k: len(v) for k, v in corp.items()}
+    ctx.extra["shards"] = len(shards)
+
+
+def replay(ctx, path):
+    """re-run the stream / race scenario named in a replay file (corpora are deterministic in seed + tier)."""
+    with open(path) as fh:
+        rp = json.load(fh)
+    d = rp["first"]["detail"] or {}
+    ctx.seed, ctx.tier = d.get("seed", rp.get("seed", ctx.seed)), d.get("tier", rp.get("tier", ctx.tier))
+    flavor = d.get("flavor", "plain")
+    binary = vf.build("c18_ws", flavor)
+    if "scenario" in d:
+        for rr in vf.run_resumable(ctx, binary, ["--mode", "closerace", "--seed", ctx.seed], d["scenario"], 1, timeout=300, tag="replay"):
+            ctx.ingest(rr, where="(replay closerace)")
+            for r in rr.records:
+                if r.get("t") == "race":
+                    judge_race(ctx, r, flavor)
+                    print(json.dumps({k: (v if k != "wire" else v[:200]) for k, v in r.items()}, indent=1))
+        return
+    corp = corpora(ctx.seed, ctx.tier)
+    if "stream" not in d:
+        fcases = os.path.join(ctx.tmp, "frames.cases")
+        write_frame_cases(fcases, corp)
+        out = os.path.join(ctx.tmp, "fc.jsonl")
+        rr = vf.run_harness(binary, ["--mode", "frame", "--seed", ctx.seed, "--cases", fcases, "--count", 20000, "--out", out], timeout=600, out_file=out)
+        ctx.ingest(rr, where="(replay frame)")
+        judge_frames(ctx, rr, corp, flavor)
+        return
+    st = None
+    for k in ("sv", "sh", "sm", "cv", "ch", "cm"):
+        for s in corp[k]:
+            if s.id == d["stream"]:
+                st = s
+    if st is None:
+        raise vf.HarnessFailure("stream %s not found in the regenerated corpora" % d["stream"])
+    mode = d["mode"]
+    if mode == "server-socket":
+        st = g.copy_for(st, g.seg_socket, random.Random(ctx.seed), False) if st.kind != "h" else st
+        if st.kind == "h":
+            st = g.copy_for(st, lambda x: x)
+            st.segspec = "W;R:1"
+    sh = Shard(flavor, mode, [st], "replay", ["--wait-ms", 8000, "--short-wait-ms", 2500], 600)
+    run_shard(ctx, binary, sh)
+    judge = Judge(ctx)
+    for rr in sh.rrs:
+        ctx.ingest(rr, where="(replay %s %s)" % (mode, flavor))
+    rec = sh.records.get(st.id)
+    for ev in sh.events:
+        ctx.violation("C18:%s:%s:process-crash" % ("server" if st.side == "s" else "client", st.hclass or "valid-stream"), "replay: %s" % (ev["detail"],), dict(stream=st.id))
+    if rec:
+        ctx.case(sig=st.sig(), sample=st.sample(), n=rec["nseg"])
+        for key, what, det in judge.case(st, rec, mode, flavor):
+            if key != "__harness__":
+                ctx.violation(key, what, det)
+        print(json.dumps(dict(stream=st.sample(), record=rec), indent=1, default=str)[:6000])
